@@ -84,6 +84,8 @@ class Resolver:
                                       f"directory: {right.why or right.kind}")
         if left.kind == "COMP" and right.kind == "COMP":
             return Prov("PATH", "REL", [left.why, right.why])
+        if left.kind == "COMP" and right.kind == "PATH" and right.root == "REL":
+            return Prov("PATH", "REL", [left.why] + right.comps)       # Path("page") / <relative path>
         if left.kind == "PATH" and left.root == "REL":
             return left
         if left.kind == "INPUT":
@@ -155,6 +157,15 @@ class Resolver:
                 return Prov("COMP", why=f".{last}()")
             if last in ("resolve", "absolute", "with_suffix", "expanduser") and isinstance(e.func, ast.Attribute):
                 return self.resolve(e.func.value, fn, cls, binds)
+            if last in ("with_name", "with_stem") and isinstance(e.func, ast.Attribute) and len(e.args) == 1:
+                # same directory, another last component
+                base = self.resolve(e.func.value, fn, cls, binds)
+                comp = self.resolve(e.args[0], fn, cls, binds)
+                if base.kind == "PATH" and comp.kind == "COMP" and base.comps:
+                    return Prov("PATH", base.root, base.comps[:-1] + [comp.why])
+                if base.kind == "PATH" and not base.comps:
+                    return Prov("UNSAFE", why=f"`{ast.unparse(e)[:60]}` is a sibling of the {base.root} directory, not a path inside it")
+                return base if base.kind == "UNSAFE" else Prov("UNSAFE", why=f"`{ast.unparse(e)[:60]}`: {comp.why or comp.kind}")
             if last == "get" and isinstance(e.func, ast.Attribute) and \
                     ast.unparse(e.func.value) in ("self.data", "data") and e.args and \
                     isinstance(e.args[0], ast.Constant):
@@ -225,6 +236,14 @@ class Resolver:
                     for t in n.targets:
                         if isinstance(t, ast.Name) and t.id == name:
                             defs.append(("assign", n.value))
+                    # `*rest, last = args` / `first, second = args`: element of a tuple parameter
+                    for t in (n.targets if isinstance(n, ast.Assign) else []):
+                        if isinstance(t, (ast.Tuple, ast.List)) and isinstance(n.value, ast.Name):
+                            for k, el in enumerate(t.elts):
+                                if isinstance(el, ast.Name) and el.id == name:
+                                    starred_before = any(isinstance(x, ast.Starred) for x in t.elts[:k])
+                                    idx = k - len(t.elts) if starred_before else k
+                                    defs.append(("assign", ast.Subscript(value=n.value, slice=ast.Constant(value=idx), ctx=ast.Load())))
                 elif isinstance(n, ast.AnnAssign) and isinstance(n.target, ast.Name) and \
                         n.target.id == name and n.value is not None:
                     defs.append(("assign", n.value))
